@@ -545,13 +545,13 @@ const sentinelLen = 16
 // ---------------------------------------------------------------- executor ops
 
 type SerObs struct {
-	F      PFields `json:"f"`
-	Len    Num     `json:"len"`  // bytes produced
-	Gsz    Num     `json:"gsz"`  // GetSerializedSizeInBytes
-	Ret    Num     `json:"retn"` // n returned by WriteTo (or len for the other writers)
-	Err    bool    `json:"err"`
-	Same   bool    `json:"same"` // the four writers produced identical bytes
-	Kinds  []int   `json:"kinds"` // in-memory kind of each chunk (from the raw view), for Enc
+	F     PFields `json:"f"`
+	Len   Num     `json:"len"`  // bytes produced
+	Gsz   Num     `json:"gsz"`  // GetSerializedSizeInBytes
+	Ret   Num     `json:"retn"` // n returned by WriteTo (or len for the other writers)
+	Err   bool    `json:"err"`
+	Same  bool    `json:"same"`  // the four writers produced identical bytes
+	Kinds []int   `json:"kinds"` // in-memory kind of each chunk (from the raw view), for Enc
 }
 
 func (e *Exec) serialize(x int, variant int) ([]byte, int64, error) {
